@@ -26,7 +26,12 @@ type caseGen struct {
 	made        int
 	drain       bool
 	rangeAppend bool // RANGE on a cached cursor, one chunk per partition, appends into that chunk
+	msgMode     int  // 0: fixed-width "k00012" (most cases), 1: messages of every length incl. empty, quotes, non-ASCII, invalid UTF-8
 }
+
+// texts for msgMode 1 (the WHERE needle "k" occurs in some of them, at the start, in the middle, at the end, never)
+var oddMsgs = []string{"", "k", "z", " k ", "\"k\"", "line1\nline2 k", "tab\there", "zzzzzzzzzzzzzzzzzzzzzzzzzzzzzzzzzzzzzzzzzzzzzzzzzzzzzzzzzzzzzzk",
+	"\xc3\xa9t\xc3\xa9 k", "\xff\xfe invalid utf8", "{\"json\":\"k\"}", "a=b,c=d", "K upper only"}
 
 func (cg *caseGen) event(marker string) Ev {
 	cg.ts += int64(cg.g.Range(1, 3))
@@ -35,6 +40,12 @@ func (cg *caseGen) event(marker string) Ev {
 		marker = cg.g.PickStr("k", "z", "k")
 	}
 	e := Ev{Ts: cg.ts, Msg: fmt.Sprintf("%s%05d", marker, cg.seq%100000)}
+	if cg.msgMode == 1 && cg.g.Chance(2, 3) {
+		e.Msg = cg.g.PickStr(oddMsgs...)
+		if cg.g.Chance(1, 2) {
+			e.Msg += fmt.Sprintf("#%d", cg.seq)
+		}
+	}
 	switch cg.fldMode {
 	case 0:
 		if cg.g.Chance(2, 5) {
@@ -42,6 +53,9 @@ func (cg *caseGen) event(marker string) Ev {
 		}
 	case 1:
 		e.Flds = fmt.Sprintf("f=v%d", cg.seq)
+	}
+	if e.Flds != "" && cg.msgMode == 1 && cg.g.Chance(1, 2) {
+		e.Flds = fmt.Sprintf("a=%d,b=zz", cg.seq)
 	}
 	return e
 }
@@ -55,12 +69,19 @@ func genCase(g *Rng) (*Replay, *caseGen) {
 	}
 	cg.nsteps = g.Range(2, 8)
 	cg.fldMode = g.PickInt(0, 0, 0, 0, 1, 2)
-	cg.nparts = g.PickInt(1, 1, 2, 2, 3, 4)
+	cg.nparts = g.PickInt(1, 1, 2, 2, 3, 4, 5)
+	if g.Chance(1, 5) {
+		cg.msgMode = 1
+	}
+	if g.Chance(1, 8) {
+		cg.ts = -3000 // timestamps below and across zero (never with RANGE: see below)
+	}
 	if cg.retry {
 		cg.nparts = g.PickInt(1, 1, 2)
 	}
 	if !cg.retry && g.Chance(1, 8) {
 		cg.rangeAppend = true
+		cg.ts = 1000
 		cg.waitMode = 1
 		cg.nparts = g.PickInt(1, 1, 2)
 	}
@@ -102,6 +123,9 @@ func genCase(g *Rng) (*Replay, *caseGen) {
 		// retried cursor would not be predictable)
 		rp.Flt.Range = false
 	}
+	if cg.ts < 1000 {
+		rp.Flt.Range = false // (the RANGE bounds below are written for timestamps from 1000 on; negative ones are C02's and C05's)
+	}
 	if rp.Flt.Range {
 		lo := 1000 + int64(g.Intn(int(cg.ts-1000)+2)) - 1
 		hi := lo + int64(g.Intn(int(cg.ts-lo)+60))
@@ -113,7 +137,7 @@ func genCase(g *Rng) (*Replay, *caseGen) {
 		}
 		rp.Flt.Lo, rp.Flt.Hi = lo, hi
 	}
-	rp.Start = g.PickStr("", "", "", "", "", "", "", "", "head", "tail")
+	rp.Start = g.PickStr("", "", "", "", "", "", "", "", "head", "tail", "Head", "TAIL") // (the corner positions are read case-insensitively)
 	if cg.rangeAppend {
 		// RANGE on a server-cached cursor, every partition in one chunk, appends land in that chunk
 		rp.Chunk = 1000000
@@ -186,8 +210,9 @@ func (cg *caseGen) next(r *runner, cur *api.QueryRequest) (Step, bool) {
 		st.Limit = int64(g.PickInt(3, 7, 7, maxChunk+1))
 		st.Kind = g.PickStr("same", "same", "same", "evict", "zero", "posonly")
 	} else {
-		st.Limit = int64(g.PickInt(1, 1, 2, 2, 3, 3, 7, maxChunk-1, maxChunk, maxChunk+1, total-1, total, total+1, 10001))
-		if st.Limit < 1 {
+		// (QueryMaxLimit = 10000: 9999 and 10000 are served uncached and unclamped, 10001 clamped and cached; 0 reads nothing)
+		st.Limit = int64(g.PickInt(1, 1, 1, 2, 2, 2, 3, 3, 3, 7, 7, maxChunk-1, maxChunk, maxChunk+1, total-1, total, total+1, total-1, total, total+1, 10001, 10001, 10000, 9999, 0))
+		if st.Limit < 0 {
 			st.Limit = 1
 		}
 		if len(r.pages) > 0 {
@@ -242,6 +267,21 @@ func (cg *caseGen) next(r *runner, cur *api.QueryRequest) (Step, bool) {
 			}
 		}
 	}
+	if cg.retry && len(r.parts) > 1 {
+		// A retried request whose Pos names the position the cached cursor stands at, but lists the partitions in another
+		// order (State.Pos is written in Go map order, anew by every page), is served by a new cursor: the provider compares
+		// the strings. Whether that happens is not predictable, and it shows (a new cursor of an uncached request gives no
+		// ReqId back): with several partitions a page is retried only after a page that moved the position.
+		if st.Limit == 0 {
+			st.Limit = 1
+		}
+		if st.Kind == "retry" && len(r.pages) > 0 && len(r.pages[len(r.pages)-1].evs) == 0 {
+			st.Kind = "same"
+		}
+	}
+	if st.Limit == 0 && !st.Wait {
+		st.Rpc = false // (the RPC querier answers limit 0 without WaitTimeout with an empty message: see docs/C03.md)
+	}
 	return st, true
 }
 
@@ -251,7 +291,16 @@ func runCase(rp *Replay, cg *caseGen) (*Case, error) {
 		return nil, err
 	}
 	cursor.VC03SetTimeouts(srv.Provider, time.Hour, time.Hour)
-	r := &runner{srv: srv, rp: rp, byPart: map[int]*partRef{}, kinds: map[string]int{}}
+	r := &runner{srv: srv, rp: rp, byPart: map[int]*partRef{}, kinds: map[string]int{}, kTrunc: -1}
+	for _, st := range rp.Steps {
+		if st.Win && r.win == nil {
+			r.win = &window{}
+			w := r.win
+			if !cursor.VC04WrapItFactory(srv.Provider, func(f cursor.ItFactory) cursor.ItFactory { return &winItf{f, w} }) {
+				return nil, fmt.Errorf("the provider's ItFactory cannot be decorated")
+			}
+		}
+	}
 	defer func() {
 		if r.hung {
 			// a request is still spinning inside the server: do not wait for its shutdown
@@ -346,8 +395,8 @@ func runCase(rp *Replay, cg *caseGen) (*Case, error) {
 	// ---- the Gallina case
 	var gsteps, gobs []string
 	for i, st := range rp.Steps {
-		if i >= len(r.coqApps) {
-			break // aborted
+		if i >= len(r.coqApps) || (r.kTrunc >= 0 && i >= r.kTrunc) {
+			break // aborted, or the page of a rolled-over window
 		}
 		k := map[string]string{"same": "RSame", "evict": "REvict", "zero": "RZero", "posonly": "RPosOnly", "retry": "RRetry"}[st.Kind]
 		if ov, ok := r.kindOv[i]; ok {
@@ -355,7 +404,10 @@ func runCase(rp *Replay, cg *caseGen) (*Case, error) {
 		}
 		gsteps = append(gsteps, fmt.Sprintf("(mkStep %s %s %s %s)", k, GN(uint64(st.Limit)), GBool(st.Wait), GList(r.coqApps[i])))
 	}
-	for _, p := range r.pages {
+	for pi, p := range r.pages {
+		if r.kTrunc >= 0 && pi >= r.kTrunc {
+			break
+		}
 		var evs []string
 		for _, e := range p.evs {
 			evs = append(evs, GTuple(GStr(e.Tags), GZ(e.Timestamp), GStr(e.Message), GStr(e.Fields)))
@@ -382,6 +434,9 @@ func runCase(rp *Replay, cg *caseGen) (*Case, error) {
 	}
 	start := r.startG
 	coq := GApp("KRun", r.st0, rp.Flt.coq(), start, GList(gsteps), GList(gobs))
+	if len(r.winObs) > 0 {
+		coq = GApp("KRunW", r.st0, rp.Flt.coq(), start, GList(gsteps), GList(gobs), GList(r.winObs))
+	}
 	if rp.Bulk > 0 {
 		// a large generated store: compact form (the literal would take minutes to parse)
 		if len(rp.Init) != 0 || rp.Flt.any() || start != "PHead" || len(r.parts) != 1 {
@@ -434,6 +489,8 @@ func runCase(rp *Replay, cg *caseGen) (*Case, error) {
 		stream = "empty-first"
 	} else if strings.HasPrefix(rp.Name, "range-grow-") {
 		stream = "range-grow"
+	} else if strings.HasPrefix(rp.Name, "eof-window-") {
+		stream = "eof-window"
 	} else if strings.HasPrefix(rp.Name, "resume-") {
 		stream = "resume-paths"
 	} else if rp.Name != "" {
@@ -493,7 +550,13 @@ func runCase(rp *Replay, cg *caseGen) (*Case, error) {
 			tags = append(tags, "pre:"+k)
 		}
 	}
+	for i := 0; i < r.winHits; i++ {
+		tags = append(tags, "flush-in-eof-window")
+	}
 	for _, st := range rp.Steps {
+		if st.Win {
+			tags = append(tags, "window-step")
+		}
 		if st.Wake {
 			tags = append(tags, "woken-page")
 		}
@@ -691,11 +754,13 @@ func rangeGrow() []Replay {
 // resolveStart turns rp.Start into the Pos string of the first request and its Gallina form. Besides "", head and tail
 // there are positions built from the chunk layout the server chose (what a client may hold after chunks were removed,
 // or a Pos it put together itself):
-//   @mid     every partition inside its first chunk (index 1)
-//   @subset  the first partition is not named, the others are at @mid; a source the store does not have is named too
-//   @gap     a chunk id between the first chunk and the next one (as after a removed chunk), index 3
-//   @over    the first chunk with an index beyond its records
-//   @past    a chunk id above the last chunk
+//
+//	@mid     every partition inside its first chunk (index 1)
+//	@subset  the first partition is not named, the others are at @mid; a source the store does not have is named too
+//	@gap     a chunk id between the first chunk and the next one (as after a removed chunk), index 3
+//	@over    the first chunk with an index beyond its records; @end: exactly its number of records; @maxidx: the last
+//	         chunk with the largest index (what "tail" is made of)
+//	@past    a chunk id above the last chunk
 func (r *runner) resolveStart() error {
 	s := r.rp.Start
 	switch strings.ToLower(s) {
@@ -728,6 +793,10 @@ func (r *runner) resolveStart() error {
 			p = journal.Pos{CId: chunk.Id(c0.Id + 1), Idx: 3}
 		case "@over":
 			p = journal.Pos{CId: chunk.Id(c0.Id), Idx: uint32(c0.Cnt + 5)}
+		case "@end":
+			p = journal.Pos{CId: chunk.Id(c0.Id), Idx: uint32(c0.Cnt)}
+		case "@maxidx":
+			p = journal.Pos{CId: chunk.Id(cl.Id), Idx: 0xFFFFFFFF}
 		case "@past":
 			p = journal.Pos{CId: chunk.Id(cl.Id + 7), Idx: 0}
 		default:
@@ -762,7 +831,7 @@ func resumePaths() []Replay {
 	one := func(p int, ts int64) []Batch { return []Batch{evs(p, ts, 1, "k")} }
 	var out []Replay
 	// positions a client can hold that do not name a record of the store as it is, over 1-3 partitions and small chunks
-	for _, start := range []string{"@mid", "@subset", "@gap", "@over", "@past"} {
+	for _, start := range []string{"@mid", "@subset", "@gap", "@over", "@end", "@maxidx", "@past"} {
 		for nparts := 1; nparts <= 3; nparts += 2 {
 			rp := Replay{Name: fmt.Sprintf("resume-start-%s-%d", start[1:], nparts), Chunk: 100, Start: start}
 			ts := int64(1001)
@@ -797,6 +866,16 @@ func resumePaths() []Replay {
 				{Kind: "same", Limit: 10001}, {Kind: "same", Limit: 7}}
 			out = append(out, rp)
 		}
+	}
+	// requests with arguments out of range in the middle of a walk (negative limit, WaitTimeout below 0 and above
+	// QueryMaxWaitTimeout = 60): refused, the walk goes on
+	for i := 0; i < 2; i++ {
+		rp := Replay{Name: fmt.Sprintf("resume-badarg-%d", i), Chunk: 1000000}
+		rp.Init = []Batch{evs(0, 1001, 4, "k")}
+		rp.Steps = []Step{{Kind: "same", Limit: 1, Wait: true}, {Kind: "same", Limit: 1, Wait: true, Pre: "badarg:limit-1"},
+			// (backend.Querier only: the RPC encoding carries the limit as an unsigned number, -1 arrives as 4294967295)
+			{Kind: "same", Limit: 1, Wait: true, Pre: "badarg:wait-1", Rpc: i == 1}, {Kind: "same", Limit: 1, Pre: "badarg:wait61", Rpc: i == 1}, {Kind: "same", Limit: 7}}
+		out = append(out, rp)
 	}
 	// the walk's ReqId with another query text (ApplyState refuses, the answer comes from a new cursor), in the middle of a
 	// cached and of an uncached walk
@@ -863,6 +942,72 @@ func resumePaths() []Replay {
 			{Kind: "same", Limit: 1, Wake: true, Wait: true, Apps: one(nparts-1, ts+1)},
 			{Kind: "evict", Limit: 2, Wake: true, Wait: true, Apps: one(0, ts+2)},
 			{Kind: "same", Limit: 10001, Apps: []Batch{evs(nparts-1, ts+3, 2, "k")}}, {Kind: "same", Limit: 7}}
+		out = append(out, rp)
+	}
+	return out
+}
+
+// eofWindow: RANGE walks (partition.JIterator) whose page runs into the end of a partition while a writer's flush lands
+// between the chunk iterator's io.EOF and the chunk selector's look at the chunk (window.go): the page returns the position
+// of the first record it did not read, the following pages - in every resume kind, on a kept cursor or a new one - deliver
+// the flushed events, each once
+func eofWindow() []Replay {
+	var out []Replay
+	n := 0
+	for _, kind := range []string{"same", "evict", "zero", "posonly"} {
+		for _, cached := range []bool{true, false} {
+			for nparts := 1; nparts <= 2; nparts++ {
+				n++
+				rp := Replay{Name: fmt.Sprintf("eof-window-%s-%v-%d", kind, cached, nparts), Chunk: 1000000}
+				ts := int64(1000)
+				ev := func() Ev {
+					ts++
+					e := Ev{Ts: ts, Msg: fmt.Sprintf("m%05d", ts%100000)}
+					if ts%3 == 0 {
+						e.Flds = fmt.Sprintf("f=v%d", ts)
+					}
+					return e
+				}
+				for p := 0; p < nparts; p++ {
+					rp.Init = append(rp.Init, Batch{Part: p, Evs: []Ev{ev(), ev(), ev(), ev()}})
+				}
+				rp.Flt = Filter{Range: true, Lo: int64([]int{0, 1002}[n%2]), Hi: ts + 1000000}
+				app := func(p, k int) []Batch {
+					b := Batch{Part: p}
+					for i := 0; i < k; i++ {
+						b.Evs = append(b.Evs, ev())
+					}
+					return []Batch{b}
+				}
+				big := int64(100)
+				if cached {
+					big = 10001
+				}
+				rp.Steps = []Step{{Kind: "same", Limit: 2, Wait: cached},
+					{Kind: "same", Limit: big, Wait: cached, Win: true, Apps: app(nparts-1, 3)},
+					{Kind: kind, Limit: 2, Wait: cached, Apps: app(0, 3)},
+					{Kind: "same", Limit: big, Wait: cached, Win: true, Apps: app(0, 2)},
+					{Kind: kind, Limit: 1, Wait: cached}, {Kind: "same", Limit: 10001}, {Kind: "same", Limit: 7}}
+				out = append(out, rp)
+			}
+		}
+	}
+	// small chunks: the flush in the window goes into a new chunk (the page reads it at once), or - two writes, the first
+	// fits into the reader's chunk, the second does not - extends the chunk AND starts a new one
+	for i, ch := range []int64{150, 200} {
+		rp := Replay{Name: fmt.Sprintf("eof-window-rollover-%d", i), Chunk: ch, Flt: Filter{Range: true, Lo: 0, Hi: 2001004}}
+		mk := func(from, n int) []Ev {
+			var es []Ev
+			for k := 0; k < n; k++ {
+				ts := int64(from + k)
+				es = append(es, Ev{Ts: ts, Msg: fmt.Sprintf("m%05d", ts%100000)})
+			}
+			return es
+		}
+		rp.Init = []Batch{{Part: 0, Evs: mk(1001, 4)}}
+		rp.Steps = []Step{{Kind: "same", Limit: 2, Wait: true},
+			{Kind: "same", Limit: 10001, Wait: true, Win: true, Apps: []Batch{{Part: 0, Evs: mk(1005, 1)}, {Part: 0, Evs: mk(1006, 6)}}},
+			{Kind: "same", Limit: 10001}, {Kind: "same", Limit: 7}}
 		out = append(out, rp)
 	}
 	return out
